@@ -1,29 +1,29 @@
 //! Case generators (one PRNG state per run; every random choice derives from the seed).
 use std::io::Write;
 
-pub struct Rng(pub u64);
+pub struct Rng(pub std::cell::Cell<u64>);
 impl Rng {
     pub fn new(seed: u64) -> Rng {
-        Rng(seed.wrapping_mul(0x9E3779B97F4A7C15) ^ 0xD1B54A32D192ED03)
+        Rng(std::cell::Cell::new(seed.wrapping_mul(0x9E3779B97F4A7C15) ^ 0xD1B54A32D192ED03))
     }
-    pub fn next(&mut self) -> u64 {
-        let mut x = self.0;
+    pub fn next(&self) -> u64 {
+        let mut x = self.0.get();
         x ^= x << 13;
         x ^= x >> 7;
         x ^= x << 17;
-        self.0 = x;
+        self.0.set(x);
         x.wrapping_mul(0x2545F4914F6CDD1D)
     }
-    pub fn below(&mut self, n: u64) -> u64 {
+    pub fn below(&self, n: u64) -> u64 {
         if n == 0 { 0 } else { self.next() % n }
     }
-    pub fn byte(&mut self) -> u8 {
+    pub fn byte(&self) -> u8 {
         (self.next() >> 32) as u8
     }
-    pub fn bytes(&mut self, n: usize) -> Vec<u8> {
+    pub fn bytes(&self, n: usize) -> Vec<u8> {
         (0..n).map(|_| self.byte()).collect()
     }
-    pub fn chance(&mut self, num: u64, den: u64) -> bool {
+    pub fn chance(&self, num: u64, den: u64) -> bool {
         self.below(den) < num
     }
 }
@@ -60,13 +60,13 @@ pub fn hex(b: &[u8]) -> String {
     crate::ops::hex(b)
 }
 
-pub fn rand_packet(r: &mut Rng) -> Vec<u8> {
+pub fn rand_packet(r: &Rng) -> Vec<u8> {
     let mut p = r.bytes(188);
     p[0] = 0x47;
     p
 }
 
-fn gen_c12(tier: &str, r: &mut Rng, o: &mut Out<'_>) {
+fn gen_c12(tier: &str, r: &Rng, o: &mut Out<'_>) {
     // exhaustive (byte1, byte2): PID / TEI / PUSI / priority
     let step = if tier == "thorough" { 1 } else { 1 };
     for b1 in (0..256usize).step_by(step) {
@@ -108,11 +108,1186 @@ fn gen_c12(tier: &str, r: &mut Rng, o: &mut Out<'_>) {
     o.meta("exhaustive", "byte1xbyte2 (65536), byte3 x length set, afc x length (1024)");
 }
 
+
+// ---------------------------------------------------------------- C13: adaptation field
+
+fn af_min_len(f: u8) -> usize {
+    1 + if f & 0x10 != 0 { 6 } else { 0 } + if f & 0x08 != 0 { 6 } else { 0 } + if f & 0x04 != 0 { 1 } else { 0 }
+}
+
+/// build an AF body (flags byte first) of exactly `len` bytes following the layout for flags `f`
+/// as far as it fits, with chosen private-data / extension length bytes
+fn af_body(r: &Rng, f: u8, len: usize, priv_len: u8, ext_len: u8, ext_flags: u8, marker_ok: bool) -> Vec<u8> {
+    let mut b = vec![f];
+    if f & 0x10 != 0 { b.extend(r.bytes(6)); }
+    if f & 0x08 != 0 { b.extend(r.bytes(6)); }
+    if f & 0x04 != 0 { b.push(r.byte()); }
+    if f & 0x02 != 0 { b.push(priv_len); b.extend(r.bytes(priv_len as usize)); }
+    if f & 0x01 != 0 {
+        b.push(ext_len);
+        let mut e = vec![ext_flags | (r.byte() & 0x1f)];
+        if ext_flags & 0x80 != 0 { e.extend(r.bytes(2)); }
+        if ext_flags & 0x40 != 0 { e.extend(r.bytes(3)); }
+        if ext_flags & 0x20 != 0 {
+            let mut t = r.bytes(5);
+            if marker_ok { t[0] |= 1; t[2] |= 1; t[4] |= 1; }
+            e.extend(t);
+        }
+        e.extend(r.bytes(4));
+        e.truncate(ext_len as usize);
+        while e.len() < ext_len as usize { e.push(r.byte()); }
+        b.extend(e);
+    }
+    b.extend(r.bytes(8));
+    if b.len() > len { b.truncate(len); }
+    while b.len() < len { b.push(r.byte()); }
+    b
+}
+
+fn gen_c13(tier: &str, r: &Rng, o: &mut Out<'_>) {
+    let thorough = tier == "thorough";
+    for f in 0..256usize {
+        let f = f as u8;
+        let base = af_min_len(f);
+        // boundary lengths of each layout
+        let mut lens: Vec<usize> = vec![1, 2, base.saturating_sub(1).max(1), base, base + 1, base + 2, base + 3, base + 8, 183];
+        if thorough { lens = (1..=183).collect(); }
+        for &len in lens.iter() {
+            for &pl in [0u8, 1, 5, 255].iter() {
+                if f & 0x02 == 0 && pl != 0 { continue; }
+                for &(el, ef) in [(0u8, 0u8), (1, 0xe0), (3, 0x80), (4, 0x40), (6, 0x20), (11, 0xe0), (10, 0xe0), (255, 0xe0), (12, 0xa0)].iter() {
+                    if f & 0x01 == 0 && el != 0 { continue; }
+                    let mk = r.chance(3, 4);
+                    let body = af_body(r, f, len, pl, el, ef, mk);
+                    o.d(&format!("af {}", hex(&body)));
+                }
+            }
+        }
+    }
+    // exact-fit bodies: length == what the layout needs, and one byte less
+    for f in 0..256usize {
+        let f = f as u8;
+        for &pl in [0u8, 3].iter() {
+            for ef in 0..8u8 {
+                let ef = ef << 5;
+                let el = 1 + if ef & 0x80 != 0 { 2 } else { 0 } + if ef & 0x40 != 0 { 3 } else { 0 } + if ef & 0x20 != 0 { 5 } else { 0 };
+                for dl in 0..3usize {
+                    let el2 = (el as usize).saturating_sub(dl) as u8;
+                    let need = af_min_len(f) + if f & 2 != 0 { 1 + pl as usize } else { 0 } + if f & 1 != 0 { 1 + el2 as usize } else { 0 };
+                    for cut in 0..2usize {
+                        if need <= cut { continue; }
+                        let mk = r.chance(2, 3);
+                        let body = af_body(r, f, need - cut, pl, el2, ef, mk);
+                        o.d(&format!("af {}", hex(&body)));
+                    }
+                }
+            }
+        }
+    }
+    let n = if thorough { 300_000 } else { 5_000 };
+    for _ in 0..n {
+        let len = 1 + r.below(183) as usize;
+        let body = r.bytes(len);
+        o.d(&format!("af {}", hex(&body)));
+    }
+    o.meta("exhaustive", "all 256 AF flag bytes x boundary lengths x private/extension length bytes x extension flag sets");
+}
+
+// ---------------------------------------------------------------- C14: PES header
+
+fn ts_bytes(r: &Rng, pfx: u8, v: u64, markers: bool) -> Vec<u8> {
+    let m = if markers { 1u8 } else { if r.chance(1, 2) { 1 } else { 0 } };
+    let m2 = if markers { 1u8 } else { if r.chance(1, 2) { 1 } else { 0 } };
+    let m3 = if markers { 1u8 } else { if r.chance(1, 2) { 1 } else { 0 } };
+    vec![
+        (pfx << 4) | ((((v >> 30) & 7) as u8) << 1) | m,
+        ((v >> 22) & 0xff) as u8,
+        ((((v >> 15) & 0x7f) as u8) << 1) | m2,
+        ((v >> 7) & 0xff) as u8,
+        (((v & 0x7f) as u8) << 1) | m3,
+    ]
+}
+
+/// optional-header bytes after the 6-byte PES packet header: flags `f`, declared hdl, actual fields
+fn pes_optional(r: &Rng, b0: u8, f: u8, hdl: u8, ext_extra: usize) -> Vec<u8> {
+    let mut c = vec![b0, f, hdl];
+    match f >> 6 {
+        2 => { let v = r.next() & 0x1_ffff_ffff; let m = r.chance(3, 4); c.extend(ts_bytes(r, 2, v, m)) }
+        3 => {
+            let v = r.next() & 0x1_ffff_ffff; let m = r.chance(3, 4); c.extend(ts_bytes(r, 3, v, m));
+            let v = r.next() & 0x1_ffff_ffff; let m = r.chance(3, 4); c.extend(ts_bytes(r, 1, v, m));
+        }
+        _ => {}
+    }
+    if f & 0x20 != 0 { c.extend(r.bytes(6)); }
+    if f & 0x10 != 0 { c.extend(r.bytes(3)); }
+    if f & 0x08 != 0 { c.push(r.byte()); }
+    if f & 0x04 != 0 { c.push(r.byte() | if r.chance(3, 4) { 0x80 } else { 0 }); }
+    if f & 0x02 != 0 { c.extend(r.bytes(2)); }
+    if f & 0x01 != 0 { c.extend(r.bytes(ext_extra)); }
+    c
+}
+
+fn pes_need(f: u8) -> usize {
+    (match f >> 6 { 2 => 5, 3 => 10, _ => 0 }) + if f & 0x20 != 0 { 6 } else { 0 } + if f & 0x10 != 0 { 3 } else { 0 }
+        + if f & 0x08 != 0 { 1 } else { 0 } + if f & 0x04 != 0 { 1 } else { 0 } + if f & 0x02 != 0 { 2 } else { 0 }
+}
+
+fn gen_c14(tier: &str, r: &Rng, o: &mut Out<'_>) {
+    let thorough = tier == "thorough";
+    // every stream id, with a plausible optional header
+    for sid in 0..256usize {
+        for &f in [0x00u8, 0x80, 0xc0, 0xff].iter() {
+            let mut b = vec![0, 0, 1, sid as u8, r.byte(), r.byte()];
+            let need = pes_need(f);
+            b.extend(pes_optional(r, 0x80 | (r.byte() & 0x3f), f, (need + 2) as u8, 2));
+            b.extend(r.bytes(r.below(12) as usize));
+            o.d(&format!("pes {}", hex(&b)));
+        }
+    }
+    // start code / length boundaries
+    for len in 0..10usize {
+        let mut b = vec![0, 0, 1, 0xe0, 0, 0, 0x80, 0, 0];
+        b.truncate(len);
+        o.d(&format!("pes {}", hex(&b)));
+    }
+    for i in 0..3usize {
+        for v in [0u8, 1, 2, 0x80, 0xff].iter() {
+            let mut b = vec![0, 0, 1, 0xe0, 0, 7, 0x80, 0, 0, 1, 2];
+            b[i] = *v;
+            o.d(&format!("pes {}", hex(&b)));
+        }
+    }
+    // every flag byte x hdl around the flag-implied size x buffer length around each boundary
+    for f in 0..256usize {
+        let f = f as u8;
+        let need = pes_need(f);
+        let hdls: Vec<usize> = if thorough { (0..=(need + 4)).chain([255usize]).collect() } else { vec![need.saturating_sub(1), need, need + 1, need + 3, 0, 255] };
+        for &hdl in hdls.iter() {
+            for &b0 in [0x80u8, 0x8f, 0x00, 0x40, 0xc0, 0xbf].iter() {
+                if b0 >> 6 != 2 && hdl != need { continue; }
+                let c = pes_optional(r, b0, f, hdl as u8, 3);
+                let full = 3 + hdl.min(40).max(need + 3);
+                let cuts: Vec<usize> = if thorough { (0..=full + 2).collect() } else { vec![0, 2, 3, 3 + need.saturating_sub(1), 3 + need, 3 + hdl.min(300), 3 + hdl.min(300) + 1, (3 + hdl.min(300)).saturating_sub(1), full + 2] };
+                for &cut in cuts.iter() {
+                    let mut cc = c.clone();
+                    while cc.len() < cut { cc.push(r.byte()); }
+                    cc.truncate(cut);
+                    let mut b = vec![0, 0, 1, 0xe0, r.byte(), r.byte()];
+                    b.extend(cc);
+                    o.d(&format!("pes {}", hex(&b)));
+                }
+            }
+        }
+    }
+    // every trick-mode byte
+    for t in 0..256usize {
+        let b = vec![0, 0, 1, 0xe0, 0, 0, 0x80, 0x08, 1, t as u8, 0xaa];
+        o.d(&format!("pes {}", hex(&b)));
+    }
+    // every first optional byte (marker / priority / alignment / copyright / original)
+    for b0 in 0..256usize {
+        let b = vec![0, 0, 1, 0xc0, 0, 9, b0 as u8, 0x00, 0, 0x11];
+        o.d(&format!("pes {}", hex(&b)));
+    }
+    let n = if thorough { 300_000 } else { 5_000 };
+    for _ in 0..n {
+        let mut b = vec![0, 0, 1, r.byte(), r.byte(), r.byte()];
+        let f = r.byte();
+        let need = pes_need(f);
+        let hdl = (need as i64 + r.below(5) as i64 - 1).max(0) as u8;
+        b.extend(pes_optional(r, if r.chance(9, 10) { 0x80 | (r.byte() & 0x3f) } else { r.byte() }, f, hdl, r.below(6) as usize));
+        b.extend(r.bytes(r.below(20) as usize));
+        if r.chance(1, 5) { let l = r.below(b.len() as u64 + 1) as usize; b.truncate(l); }
+        o.d(&format!("pes {}", hex(&b)));
+    }
+    o.meta("exhaustive", "256 stream ids; 256 flag bytes x header_data_length around implied size x buffer cuts; 256 trick-mode bytes; 256 first bytes");
+}
+
+// ---------------------------------------------------------------- C15: timestamps / clock refs
+
+fn gen_c15(tier: &str, r: &Rng, o: &mut Out<'_>) {
+    let thorough = tier == "thorough";
+    let edge: Vec<u64> = vec![0, 1, 2, (1 << 32) - 1, 1 << 32, (1 << 32) + 1, (1 << 33) - 2, (1 << 33) - 1, 1 << 33, (1 << 33) + 1,
+        (1 << 34) - 1, 1 << 34, (1 << 34) + 1, 1 << 63, u64::MAX - 1, u64::MAX];
+    for &v in edge.iter() { o.d(&format!("tsu64 {}", v)); }
+    let n = if thorough { 200_000 } else { 5_000 };
+    for _ in 0..n {
+        let v = match r.below(4) { 0 => r.next() & ((1 << 33) - 1), 1 => r.next() & ((1 << 35) - 1), 2 => (1u64 << 33).wrapping_add(r.below(64)).wrapping_sub(32), _ => r.next() };
+        o.d(&format!("tsu64 {}", v));
+    }
+    // all 2^7 marker/prefix patterns x random values
+    for pat in 0..128usize {
+        let reps = if thorough { 200 } else { 12 };
+        for _ in 0..reps {
+            let v = r.next() & 0x1_ffff_ffff;
+            let pfx = (pat >> 3) as u8;
+            let mut b = ts_bytes(r, pfx, v, true);
+            if pat & 1 == 0 { b[0] &= 0xfe; }
+            if pat & 2 == 0 { b[2] &= 0xfe; }
+            if pat & 4 == 0 { b[4] &= 0xfe; }
+            b.extend(r.bytes(r.below(3) as usize));
+            o.d(&format!("ts {}", hex(&b)));
+        }
+    }
+    for &v in edge.iter() {
+        let v = v & 0x1_ffff_ffff;
+        for pfx in [1u8, 2, 3, 0, 15] { let b = ts_bytes(r, pfx, v, true); o.d(&format!("ts {}", hex(&b))); }
+    }
+    for _ in 0..n { let b = r.bytes(5); o.d(&format!("ts {}", hex(&b))); }
+    // wrap detection
+    let m33: u64 = (1 << 33) - 1;
+    let mut pairs: Vec<(u64, u64)> = vec![];
+    for &e in [0u64, 1, (1 << 32) - 1, 1 << 32, (1 << 32) + 1, m33 - 1, m33].iter() {
+        for &d in [0u64, 1, 2, (1 << 32) - 1, 1 << 32, (1 << 32) + 1, m33].iter() {
+            pairs.push(((e + d) & m33, e));
+            pairs.push((e, (e + d) & m33));
+        }
+    }
+    for _ in 0..n {
+        let e = r.next() & m33;
+        let d = match r.below(3) { 0 => r.below((1 << 32) + 1), 1 => (1u64 << 32) - 2 + r.below(5), _ => r.next() & m33 };
+        pairs.push(((e + d) & m33, e));
+        if r.chance(1, 4) { pairs.push((r.next() & m33, r.next() & m33)); }
+    }
+    for (a, b) in pairs { o.d(&format!("wrap {} {}", a, b)); }
+    // clock references
+    for &b in [0u64, 1, (1 << 33) - 1, 1 << 33, (1 << 33) + 1, u64::MAX, 1 << 40].iter() {
+        for &e in [0u64, 1, 299, 300, 511, 512, 513, 65535].iter() { o.d(&format!("cref {} {}", b, e)); }
+    }
+    for _ in 0..n {
+        let b = if r.chance(4, 5) { r.next() & m33 } else { r.next() };
+        let e = if r.chance(4, 5) { r.below(512) } else { r.below(65536) };
+        o.d(&format!("cref {} {}", b, e));
+        let s = r.bytes(6 + r.below(3) as usize);
+        o.d(&format!("crefs {}", hex(&s)));
+    }
+    o.d("crefs ffffffffffff");
+    o.d("crefs 000000000000");
+    o.meta("exhaustive", "all 128 marker/prefix patterns; boundary classes of from_u64 / from_parts / wrap");
+}
+
+// ---------------------------------------------------------------- C04 (checksum part)
+
+pub fn crc32(data: &[u8]) -> u32 {
+    // independent bit-serial implementation (Annex A): poly 0x04C11DB7, preset all ones, MSB first
+    let mut c: u32 = 0xffff_ffff;
+    for &d in data {
+        for k in 0..8 {
+            let bit = ((d >> (7 - k)) & 1) as u32;
+            let top = (c >> 31) & 1;
+            c <<= 1;
+            if top ^ bit == 1 { c ^= 0x04C1_1DB7; }
+        }
+    }
+    c
+}
+
+fn gen_crc_cases(tier: &str, r: &Rng, o: &mut Out<'_>) {
+    let thorough = tier == "thorough";
+    o.d("crc -");
+    for b in 0..256usize { let id = o.d(&format!("crc {:02x}", b)); o.expect(&id, &format!("{}", crc32(&[b as u8]))); }
+    if thorough {
+        for a in 0..256usize { for b in 0..256usize { let id = o.d(&format!("crc {:02x}{:02x}", a, b)); o.expect(&id, &format!("{}", crc32(&[a as u8, b as u8]))); } }
+    } else {
+        for _ in 0..2000 { let v = r.bytes(2); let id = o.d(&format!("crc {}", hex(&v))); o.expect(&id, &format!("{}", crc32(&v))); }
+    }
+    let n = if thorough { 60_000 } else { 3_000 };
+    for _ in 0..n {
+        let len = r.below(1100) as usize;
+        let v = r.bytes(len);
+        let id = o.d(&format!("crc {}", hex(&v)));
+        o.expect(&id, &format!("{}", crc32(&v)));
+    }
+    // message followed by its CRC sums to zero; corruptions do not
+    for _ in 0..(n / 10) {
+        let len = 1 + r.below(200) as usize;
+        let mut v = r.bytes(len);
+        let c = crc32(&v);
+        v.extend_from_slice(&c.to_be_bytes());
+        let id = o.d(&format!("crc {}", hex(&v)));
+        o.expect(&id, "0");
+        let bit = r.below(v.len() as u64 * 8) as usize;
+        let mut w = v.clone();
+        w[bit / 8] ^= 0x80 >> (bit % 8);
+        let id = o.d(&format!("crc {}", hex(&w)));
+        o.expect(&id, &format!("{}", crc32(&w)));
+    }
+}
+
+// ---------------------------------------------------------------- C16 / C17: tables, descriptors
+
+pub fn rand_desc(r: &Rng) -> Vec<u8> {
+    let tag = match r.below(8) { 0 => 5, 1 => 10, 2 => 14, 3 => 40, _ => r.byte() };
+    let len = match r.below(6) { 0 => 0, 1 => 3, 2 => 4, 3 => 8, _ => r.below(12) as usize };
+    let mut d = vec![tag, len as u8];
+    d.extend(r.bytes(len));
+    d
+}
+
+pub fn rand_desc_loop(r: &Rng, max: usize) -> Vec<u8> {
+    let mut b = vec![];
+    for _ in 0..r.below(max as u64 + 1) { b.extend(rand_desc(r)); }
+    b
+}
+
+fn gen_c17(tier: &str, r: &Rng, o: &mut Out<'_>) {
+    let thorough = tier == "thorough";
+    // every tag x payload lengths 0..=6 and 255
+    for tag in 0..256usize {
+        for &len in [0usize, 1, 2, 3, 4, 5, 6, 255].iter() {
+            let mut d = vec![tag as u8, len as u8];
+            d.extend(r.bytes(len));
+            o.d(&format!("desc {}", hex(&d)));
+        }
+    }
+    // typed descriptors: every length 0..=255
+    for &tag in [5u8, 10, 14, 40].iter() {
+        for len in 0..256usize {
+            if !thorough && len > 20 && len % 16 != 0 && len != 255 { continue; }
+            let mut d = vec![tag, len as u8];
+            d.extend(r.bytes(len));
+            o.d(&format!("desc {}", hex(&d)));
+        }
+    }
+    // loops of up to 3 descriptors over (tag class, length byte relative to what remains)
+    let tags = [5u8, 10, 14, 40, 2, 0x80];
+    let depth = 3;
+    let mut stack: Vec<Vec<u8>> = vec![vec![]];
+    for _ in 0..depth {
+        let mut next = vec![];
+        for pre in stack.iter() {
+            for &t in tags.iter() {
+                for &l in [0usize, 1, 3, 4, 5].iter() {
+                    let mut b = pre.clone();
+                    b.push(t); b.push(l as u8); b.extend(r.bytes(l));
+                    next.push(b);
+                }
+            }
+        }
+        for b in next.iter() {
+            if !thorough && r.chance(9, 10) && b.len() > 14 { continue; }
+            o.d(&format!("desc {}", hex(b)));
+            // truncations: remove 1..3 trailing bytes; length byte overrun; a single stray byte
+            for cut in 1..=3usize { if b.len() >= cut { o.d(&format!("desc {}", hex(&b[..b.len() - cut]))); } }
+            let mut c = b.clone(); c.push(r.byte()); o.d(&format!("desc {}", hex(&c)));
+            let mut c = b.clone(); c.push(r.byte()); c.push(1 + r.below(255) as u8); o.d(&format!("desc {}", hex(&c)));
+        }
+        stack = if thorough { next } else { next.into_iter().filter(|_| r.chance(1, 6)).collect() };
+    }
+    let n = if thorough { 200_000 } else { 5_000 };
+    for _ in 0..n {
+        let mut b = rand_desc_loop(r, 5);
+        if r.chance(1, 3) { let l = r.below(b.len() as u64 + 1) as usize; b.truncate(l); }
+        if r.chance(1, 10) { b = r.bytes(r.below(30) as usize); }
+        o.d(&format!("desc {}", hex(&b)));
+    }
+    o.d("desc -");
+    o.meta("exhaustive", "256 tags x payload lengths {0..6,255}; typed descriptors x lengths; loops of <=3 descriptors over tag class x length");
+}
+
+fn gen_c16(tier: &str, r: &Rng, o: &mut Out<'_>) {
+    let thorough = tier == "thorough";
+    // PAT bodies of every length 0..=1012
+    for len in 0..=1012usize {
+        if !thorough && len > 40 && len % 37 != 0 && len < 1008 { continue; }
+        let mut b = r.bytes(len);
+        // make some entries network entries / boundary PIDs
+        let mut i = 0;
+        while i + 4 <= b.len() {
+            match r.below(6) { 0 => { b[i] = 0; b[i + 1] = 0; } 1 => { b[i + 2] = 0xff; b[i + 3] = 0xff; } 2 => { b[i + 2] = 0xe0; b[i + 3] = 0; } _ => {} }
+            i += 4;
+        }
+        o.d(&format!("pat {}", hex(&b)));
+    }
+    // PMT bodies
+    let n = if thorough { 150_000 } else { 6_000 };
+    for k in 0..n {
+        let mut b = vec![r.byte(), r.byte()];
+        let pd = rand_desc_loop(r, 3);
+        let pil = match r.below(8) { 0 => pd.len() + 1, 1 => pd.len().saturating_sub(1), 2 => 4095, _ => pd.len() };
+        b.push(((pil >> 8) as u8 & 0x0f) | (r.byte() & 0xf0)); b.push(pil as u8);
+        b.extend(&pd);
+        for _ in 0..r.below(5) {
+            let ed = rand_desc_loop(r, 3);
+            let esil = match r.below(10) { 0 => ed.len() + 1, 1 => ed.len().saturating_sub(1), 2 => 4095, _ => ed.len() };
+            b.push(r.byte());
+            let pid = match r.below(4) { 0 => 0x1fff, 1 => 0, _ => r.below(0x2000) as u16 };
+            b.push((r.byte() & 0xe0) | (pid >> 8) as u8); b.push(pid as u8);
+            b.push(((esil >> 8) as u8 & 0x0f) | (r.byte() & 0xf0)); b.push(esil as u8);
+            b.extend(&ed);
+        }
+        match r.below(6) { 0 => { b.extend(r.bytes(1 + r.below(4) as usize)); } 1 => { let l = r.below(b.len() as u64 + 1) as usize; b.truncate(l); } _ => {} }
+        if k < 8 { b.truncate(k); }
+        o.d(&format!("pmt {}", hex(&b)));
+    }
+    // every body length 0..=40 with boundary-valued length fields
+    for len in 0..=40usize {
+        for &pil in [0usize, 1, len.saturating_sub(5), len.saturating_sub(4), len.saturating_sub(3), 4095].iter() {
+            let mut b = r.bytes(len);
+            if len >= 4 { b[2] = (b[2] & 0xf0) | ((pil >> 8) as u8 & 0x0f); b[3] = pil as u8; }
+            o.d(&format!("pmt {}", hex(&b)));
+        }
+    }
+    o.meta("exhaustive", "PAT body lengths; PMT body lengths 0..=40 x boundary program_info_length");
+}
+
+// ================================================================ transport stream builders
+
+/// one transport packet with `payload` (1..=184 bytes) and adaptation-field stuffing as needed.
+/// `pcr`: put a PCR in the adaptation field when it is long enough.
+pub fn mk_pkt(r: &Rng, pid: u16, pusi: bool, cc: u8, payload: &[u8], pcr: bool) -> Vec<u8> {
+    assert!(payload.len() >= 1 && payload.len() <= 184);
+    let mut p = vec![0x47, (if pusi { 0x40 } else { 0 }) | ((pid >> 8) as u8 & 0x1f) | if r.chance(1, 8) { 0x20 } else { 0 }, pid as u8];
+    if payload.len() == 184 {
+        p.push(0x10 | (cc & 0x0f));
+    } else {
+        p.push(0x30 | (cc & 0x0f));
+        let l = 183 - payload.len();
+        p.push(l as u8);
+        if l > 0 {
+            let mut af = vec![0u8; l];
+            af[0] = if r.chance(1, 4) { 0x40 } else { 0 };
+            for b in af[1..].iter_mut() { *b = 0xff; }
+            if pcr && l >= 7 { af[0] |= 0x10; for b in af[1..7].iter_mut() { *b = r.byte(); } }
+            p.extend(af);
+        }
+    }
+    p.extend_from_slice(payload);
+    assert_eq!(p.len(), 188);
+    p
+}
+
+/// adaptation-field-only packet (no payload); the continuity counter does not advance
+pub fn mk_af_only(r: &Rng, pid: u16, cc: u8) -> Vec<u8> {
+    let mut p = vec![0x47, (pid >> 8) as u8 & 0x1f, pid as u8, 0x20 | (cc & 0x0f), 183, 0x10];
+    p.extend(r.bytes(6));
+    while p.len() < 188 { p.push(0xff); }
+    p
+}
+
+pub fn null_pkt(r: &Rng) -> Vec<u8> {
+    let mut p = vec![0x47, 0x1f, 0xff, 0x10 | (r.byte() & 0x0f)];
+    while p.len() < 188 { p.push(0xff); }
+    p
+}
+
+pub fn with_crc(mut s: Vec<u8>) -> Vec<u8> {
+    let c = crc32(&s);
+    s.extend_from_slice(&c.to_be_bytes());
+    s
+}
+
+/// a section-syntax section: table_id, syntax bit set, section_length, 5-byte table syntax header,
+/// body, CRC
+pub fn syntax_section(table_id: u8, id: u16, version: u8, body: &[u8]) -> Vec<u8> {
+    let sl = 5 + body.len() + 4;
+    let mut s = vec![table_id, 0xb0 | ((sl >> 8) as u8 & 0x0f), sl as u8, (id >> 8) as u8, id as u8, 0xc1 | ((version & 0x1f) << 1), 0, 0];
+    s.extend_from_slice(body);
+    with_crc(s)
+}
+
+pub fn pat_section(tsid: u16, version: u8, entries: &[(u16, u16)]) -> Vec<u8> {
+    let mut body = vec![];
+    for &(pn, pid) in entries {
+        body.extend_from_slice(&[(pn >> 8) as u8, pn as u8, 0xe0 | (pid >> 8) as u8 & 0x1f, pid as u8]);
+    }
+    syntax_section(0, tsid, version, &body)
+}
+
+pub fn pmt_section(prog: u16, version: u8, pcr_pid: u16, prog_desc: &[u8], streams: &[(u8, u16, Vec<u8>)]) -> Vec<u8> {
+    let mut body = vec![0xe0 | (pcr_pid >> 8) as u8 & 0x1f, pcr_pid as u8, 0xf0 | (prog_desc.len() >> 8) as u8 & 0x0f, prog_desc.len() as u8];
+    body.extend_from_slice(prog_desc);
+    for (st, pid, d) in streams {
+        body.extend_from_slice(&[*st, 0xe0 | (*pid >> 8) as u8 & 0x1f, *pid as u8, 0xf0 | (d.len() >> 8) as u8 & 0x0f, d.len() as u8]);
+        body.extend_from_slice(d);
+    }
+    syntax_section(2, prog, version, &body)
+}
+
+/// how a section is cut into transport packets
+pub struct SecPlan {
+    pub pre: Vec<u8>,        // bytes before the section in the first packet (pointer_field = pre.len())
+    pub first: usize,        // bytes of the section carried by the first packet
+    pub conts: Vec<usize>,   // payload sizes of the continuation packets (the last one may hold trailing stuffing)
+    pub trailing_stuff: bool, // fill the packet in which the section ends with 0xff (else shorten it with AF stuffing)
+}
+
+/// packetise `section` on `pid`; returns packets.  Requires 1 + pre.len() + first <= 184.
+pub fn packetize_section(r: &Rng, pid: u16, cc: &mut u8, section: &[u8], plan: &SecPlan) -> Vec<Vec<u8>> {
+    let mut out = vec![];
+    let mut pl = vec![plan.pre.len() as u8];
+    pl.extend_from_slice(&plan.pre);
+    let first = plan.first.min(section.len());
+    pl.extend_from_slice(&section[..first]);
+    let mut pos = first;
+    if pos == section.len() && plan.trailing_stuff { while pl.len() < 184 { pl.push(0xff); } }
+    out.push(mk_pkt(r, pid, true, *cc, &pl, false));
+    *cc = (*cc + 1) & 15;
+    let mut i = 0;
+    while pos < section.len() {
+        let want = if i < plan.conts.len() { plan.conts[i] } else { 184 };
+        let want = want.max(1).min(184);
+        i += 1;
+        let take = want.min(section.len() - pos);
+        let mut pl = section[pos..pos + take].to_vec();
+        pos += take;
+        if pos == section.len() && plan.trailing_stuff { while pl.len() < 184 { pl.push(0xff); } }
+        out.push(mk_pkt(r, pid, false, *cc, &pl, false));
+        *cc = (*cc + 1) & 15;
+    }
+    out
+}
+
+pub fn simple_plan(section_len: usize) -> SecPlan {
+    SecPlan { pre: vec![], first: section_len.min(183), conts: vec![], trailing_stuff: true }
+}
+
+pub fn rand_plan(r: &Rng, section_len: usize, min_first: usize) -> SecPlan {
+    let pre_len = if r.chance(1, 4) { r.below(40) as usize } else { 0 };
+    let max_first = 183 - pre_len;
+    let lo = min_first.min(section_len).min(max_first);
+    let first = if r.chance(1, 3) { lo + r.below((max_first - lo + 1) as u64) as usize } else { max_first };
+    let conts = (0..8).map(|_| match r.below(4) { 0 => 1 + r.below(184) as usize, 1 => 1, _ => 184 }).collect();
+    SecPlan { pre: vec![0xff; pre_len], first, conts, trailing_stuff: r.chance(1, 2) }
+}
+
+// ---------------------------------------------------------------- PES
+
+pub struct PesSpec {
+    pub sid: u8,
+    pub pts: Option<u64>,
+    pub dts: Option<u64>,
+    pub flags_extra: u8,   // ESCR 0x20, ES_rate 0x10, trick 0x08, copy 0x04, crc 0x02, ext 0x01
+    pub ext_bytes: usize,
+    pub declared_len: Option<u16>, // None: compute (0 if too large)
+    pub payload: Vec<u8>,
+}
+
+/// returns (PES packet bytes, header length = offset of the payload)
+pub fn pes_bytes(r: &Rng, s: &PesSpec) -> (Vec<u8>, usize) {
+    let no_header = [0xbcu8, 0xbe, 0xbf, 0xf0, 0xf1, 0xff, 0xf2, 0xf8].contains(&s.sid);
+    let mut opt = vec![];
+    if !no_header {
+        let mut f = s.flags_extra & 0x3f;
+        let mut fields = vec![];
+        match (s.pts, s.dts) {
+            (Some(p), Some(d)) => { f |= 0xc0; fields.extend(ts_bytes(r, 3, p, true)); fields.extend(ts_bytes(r, 1, d, true)); }
+            (Some(p), None) => { f |= 0x80; fields.extend(ts_bytes(r, 2, p, true)); }
+            _ => {}
+        }
+        if f & 0x20 != 0 { fields.extend(r.bytes(6)); }
+        if f & 0x10 != 0 { fields.extend(r.bytes(3)); }
+        if f & 0x08 != 0 { fields.push(r.byte()); }
+        if f & 0x04 != 0 { fields.push(r.byte() | 0x80); }
+        if f & 0x02 != 0 { fields.extend(r.bytes(2)); }
+        if f & 0x01 != 0 { fields.extend(r.bytes(s.ext_bytes)); } else { fields.extend(vec![0xff; s.ext_bytes]); }
+        opt.push(0x80 | (r.byte() & 0x3f));
+        opt.push(f);
+        opt.push(fields.len() as u8);
+        opt.extend(fields);
+    }
+    let total = opt.len() + s.payload.len();
+    let len = match s.declared_len { Some(l) => l, None => if total > 65535 { 0 } else { total as u16 } };
+    let mut b = vec![0, 0, 1, s.sid, (len >> 8) as u8, len as u8];
+    b.extend(opt);
+    let hl = b.len();
+    b.extend_from_slice(&s.payload);
+    (b, hl)
+}
+
+pub fn rand_pes(r: &Rng, max_payload: usize) -> PesSpec {
+    let sid = match r.below(10) { 0 => 0xbd, 1 => [0xbcu8, 0xbe, 0xbf, 0xf0, 0xf1, 0xff, 0xf2, 0xf8][r.below(8) as usize], 2 => 0xc0 + (r.byte() & 0x1f), _ => 0xe0 + (r.byte() & 0x0f) };
+    let (pts, dts) = match r.below(3) { 0 => (None, None), 1 => (Some(r.next() & 0x1_ffff_ffff), None), _ => (Some(r.next() & 0x1_ffff_ffff), Some(r.next() & 0x1_ffff_ffff)) };
+    let plen = match r.below(6) { 0 => 0, 1 => 1, 2 => r.below(20) as usize, _ => r.below(max_payload as u64 + 1) as usize };
+    PesSpec { sid, pts, dts, flags_extra: if r.chance(1, 2) { r.byte() & 0x3f } else { 0 }, ext_bytes: r.below(5) as usize,
+        declared_len: if r.chance(1, 6) { Some(0) } else { None }, payload: r.bytes(plen) }
+}
+
+/// packetise one PES packet: the first transport packet carries the whole header plus `k` payload
+/// bytes; each packet may be shortened by adaptation-field stuffing
+pub fn packetize_pes(r: &Rng, pid: u16, cc: &mut u8, pes: &[u8], header_len: usize, exact_fit: bool) -> Vec<Vec<u8>> {
+    let mut out = vec![];
+    assert!(header_len <= 184);
+    let max_first = pes.len().min(184);
+    let first = if exact_fit || r.chance(1, 2) { max_first } else { header_len + r.below((max_first - header_len + 1) as u64) as usize };
+    out.push(mk_pkt(r, pid, true, *cc, &pes[..first], r.chance(1, 4)));
+    *cc = (*cc + 1) & 15;
+    let mut pos = first;
+    while pos < pes.len() {
+        let rem = pes.len() - pos;
+        let take = if exact_fit || r.chance(2, 3) { rem.min(184) } else { 1 + r.below(rem.min(184) as u64) as usize };
+        out.push(mk_pkt(r, pid, false, *cc, &pes[pos..pos + take], r.chance(1, 6)));
+        *cc = (*cc + 1) & 15;
+        pos += take;
+    }
+    out
+}
+
+pub fn join(pkts: &[Vec<u8>]) -> String {
+    pkts.iter().map(|p| hex(p)).collect::<Vec<_>>().join(" ")
+}
+pub fn concat(pkts: &[Vec<u8>]) -> Vec<u8> {
+    let mut v = vec![];
+    for p in pkts { v.extend_from_slice(p); }
+    v
+}
+
+// ---------------------------------------------------------------- C03: section reassembly
+
+fn rand_section(r: &Rng, syntax: bool, sl: usize) -> Vec<u8> {
+    // sl = section_length (bytes after the 3-byte common header)
+    let mut s = vec![r.byte(), (if syntax { 0x80 } else { 0 }) | (r.byte() & 0x70) | ((sl >> 8) as u8 & 0x0f), sl as u8];
+    s.extend(r.bytes(sl));
+    s
+}
+
+fn gen_c03(tier: &str, r: &Rng, o: &mut Out<'_>) {
+    let thorough = tier == "thorough";
+    for &syntax in [true, false].iter() {
+        let kind = if syntax { "s" } else { "c" };
+        let min_first = if syntax { 8 } else { 3 };
+        for sl in 0..=1021usize {
+            let reps = if thorough { 12 } else if sl < 30 || sl > 1000 || (170..200).contains(&sl) { 4 } else { 1 };
+            for rep in 0..reps {
+                let sec = rand_section(r, syntax, sl);
+                let mut cc = r.byte() & 15;
+                let mut pkts = vec![];
+                // prior state: idle, mid-section (unfinished), or a previous section finished by the pointer bytes
+                let prior = r.below(4);
+                let mut plan = if rep == 0 { simple_plan(sec.len()) } else { rand_plan(r, sec.len(), min_first) };
+                if prior == 1 {
+                    // an unfinished section precedes
+                    let prev = rand_section(r, syntax, 300 + r.below(400) as usize);
+                    let pp = SecPlan { pre: vec![], first: 100, conts: vec![], trailing_stuff: false };
+                    let mut all = packetize_section(r, 0x100, &mut cc, &prev, &pp);
+                    all.truncate(1 + r.below(2) as usize);
+                    pkts.extend(all);
+                } else if prior == 2 && plan.pre.len() + 1 + min_first.min(sec.len()) <= 183 {
+                    // previous section completed by the pointer_field bytes of our first packet
+                    let tail = 1 + r.below(30) as usize;
+                    let prev = rand_section(r, syntax, 150 + tail + r.below(20) as usize);
+                    let head_len = prev.len() - tail;
+                    let pp = SecPlan { pre: vec![], first: head_len, conts: vec![], trailing_stuff: false };
+                    let mut all = packetize_section(r, 0x100, &mut cc, &prev[..head_len], &pp);
+                    all.truncate(1);
+                    pkts.extend(all);
+                    plan.pre = prev[head_len..].to_vec();
+                    if 1 + plan.pre.len() + plan.first > 184 { plan.first = 184 - 1 - plan.pre.len(); }
+                }
+                let lo = min_first.min(sec.len());
+                if plan.first < lo { plan.first = lo; }
+                if 1 + plan.pre.len() + plan.first > 184 { plan.first = 183 - plan.pre.len(); }
+                pkts.extend(packetize_section(r, 0x100, &mut cc, &sec, &plan));
+                // trailing stuffing / continuation packets after completion
+                for _ in 0..r.below(3) { pkts.push(mk_pkt(r, 0x100, false, cc, &vec![0xff; 184], false)); cc = (cc + 1) & 15; }
+                o.d(&format!("sec {} {}", kind, join(&pkts)));
+            }
+        }
+        // over-limit lengths are never delivered
+        for sl in 1022..=4095usize {
+            if !thorough && sl % 97 != 0 && sl > 1030 && sl < 4090 { continue; }
+            let mut sec = rand_section(r, syntax, sl.min(1500));
+            sec[1] = (sec[1] & 0xf0) | ((sl >> 8) as u8 & 0x0f); sec[2] = sl as u8;
+            let mut cc = 0;
+            let pkts = packetize_section(r, 0x100, &mut cc, &sec, &SecPlan { pre: vec![], first: 183, conts: vec![], trailing_stuff: true });
+            o.d(&format!("sec {} {}", kind, join(&pkts)));
+        }
+        // every (section_length, first share) pair near the boundaries
+        let sls: Vec<usize> = if thorough { (0..=400).collect() } else { vec![0, 1, 4, 5, 9, 100, 175, 179, 180, 181, 182, 183, 184, 200, 365, 366, 367] };
+        for &sl in sls.iter() {
+            let sec = rand_section(r, syntax, sl);
+            let lo = min_first.min(sec.len());
+            for k in lo..=sec.len().min(183) {
+                if !thorough && k > lo + 3 && k + 3 < sec.len().min(183) && k % 23 != 0 { continue; }
+                let mut cc = 3;
+                let plan = SecPlan { pre: vec![], first: k, conts: vec![1, 2, 184, 3], trailing_stuff: k % 2 == 0 };
+                let pkts = packetize_section(r, 0x100, &mut cc, &sec, &plan);
+                o.d(&format!("sec {} {}", kind, join(&pkts)));
+            }
+        }
+        // hostile payload sequences (free-form: correspondence and no-panic only)
+        let n = if thorough { 60_000 } else { 3_000 };
+        for _ in 0..n {
+            let mut pkts = vec![];
+            let mut cc = 0u8;
+            for _ in 0..(1 + r.below(6)) {
+                let plen = match r.below(5) { 0 => 1, 1 => 2 + r.below(6) as usize, 2 => 184, _ => 1 + r.below(184) as usize };
+                let mut pl = r.bytes(plen);
+                let pusi = r.chance(1, 2);
+                if pusi {
+                    pl[0] = match r.below(4) { 0 => 0, 1 => r.below(plen as u64 + 2) as u8, _ => r.below(8) as u8 };
+                    let start = 1 + pl[0] as usize;
+                    if start + 3 <= pl.len() {
+                        if r.chance(2, 3) { if syntax { pl[start + 1] |= 0x80 } else { pl[start + 1] &= 0x7f } }
+                        if r.chance(2, 3) { pl[start + 1] &= 0xf0; pl[start + 1] |= (r.below(5) as u8) & 0x0f; }
+                    }
+                }
+                let mut p = mk_pkt(r, 0x100, pusi, cc, &pl, false);
+                if r.chance(1, 12) { p[3] = (p[3] & 0xcf) | ((r.byte() & 3) << 4); }
+                if r.chance(1, 12) { p[4] = r.byte(); }
+                cc = (cc + 1) & 15;
+                pkts.push(p);
+            }
+            o.h(&format!("sec {} {}", kind, join(&pkts)));
+        }
+    }
+    o.meta("exhaustive", "every section_length 0..=1021 in both syntaxes; over-limit lengths; (length, first share) boundaries");
+}
+
+// ---------------------------------------------------------------- C08 / C09: PES filter
+
+fn sym_packet(r: &Rng, sym: usize, cc_prev: &mut Option<u8>) -> Vec<u8> {
+    // sym in 0..48: pusi(2) x has_payload flag(2) x payload kind(3) x counter kind(4)
+    let pusi = sym & 1 != 0;
+    let has_payload = (sym >> 1) & 1 != 0;
+    let kind = (sym >> 2) % 3;
+    let cck = (sym >> 2) / 3;
+    let expected = match *cc_prev { Some(c) => if has_payload { (c + 1) & 15 } else { c }, None => r.byte() & 15 };
+    let cc = match cck { 0 => expected, 1 => expected.wrapping_sub(1) & 15, 2 => (expected + 2) & 15, _ => (expected + 1 + r.below(15) as u8) & 15 };
+    *cc_prev = Some(cc);
+    let mut p = if has_payload {
+        let pl: Vec<u8> = match kind {
+            0 => { let (b, _) = pes_bytes(r, &rand_pes(r, 150)); b[..b.len().min(184)].to_vec() }
+            1 => { let mut v = r.bytes(1 + r.below(184) as usize); if v.len() >= 3 { v[2] = 2; } v }
+            _ => r.bytes(1 + r.below(5) as usize),
+        };
+        mk_pkt(r, 0x101, pusi, cc, &pl, false)
+    } else {
+        let mut p = mk_af_only(r, 0x101, cc);
+        if pusi { p[1] |= 0x40; }
+        if kind == 1 { p[4] = r.byte(); }
+        p
+    };
+    if kind == 2 && has_payload && r.chance(1, 3) { p[4] = 200; p[3] |= 0x20; }
+    p
+}
+
+fn gen_pesf(tier: &str, r: &Rng, o: &mut Out<'_>, depth_quick: usize) {
+    let thorough = tier == "thorough";
+    let depth = if thorough { depth_quick + 1 } else { depth_quick };
+    // prefixes reaching the three filter states
+    let prefixes: Vec<Vec<usize>> = vec![vec![], vec![3], vec![3, 2 + 4 * 3 * 2], vec![7]];
+    let mut seqs: Vec<Vec<usize>> = vec![vec![]];
+    for _ in 0..depth {
+        let mut next = vec![];
+        for s in seqs.iter() { for sym in 0..48usize { let mut t = s.clone(); t.push(sym); next.push(t); } }
+        seqs = next;
+    }
+    for pre in prefixes.iter() {
+        for s in seqs.iter() {
+            let mut ccp = None;
+            let mut pkts = vec![];
+            for &sym in pre.iter().chain(s.iter()) { pkts.push(sym_packet(r, sym, &mut ccp)); }
+            o.d(&format!("pesf {}", join(&pkts)));
+        }
+    }
+    // all 16x16 counter pairs x payload flag x unit start, from each state
+    for pre in prefixes.iter() {
+        for c0 in 0..16u8 { for c1 in 0..16u8 { for hp in 0..2 { for us in 0..2 {
+            let mut ccp = None;
+            let mut pkts = vec![];
+            for &sym in pre.iter() { pkts.push(sym_packet(r, sym, &mut ccp)); }
+            let mut a = mk_pkt(r, 0x101, false, c0, &r.bytes(50), false);
+            if pre.is_empty() { a[1] |= 0x40; a[187 - 49] = 0; a[188 - 49] = 0; a[189 - 49] = 1; }
+            let mut b = if hp == 1 { mk_pkt(r, 0x101, us == 1, c1, &r.bytes(60), false) } else { let mut p = mk_af_only(r, 0x101, c1); if us == 1 { p[1] |= 0x40; } p };
+            if us == 1 && hp == 1 { let n = b.len(); b[n - 60] = 0; b[n - 59] = 0; b[n - 58] = 1; }
+            pkts.push(a); pkts.push(b);
+            pkts.push(mk_pkt(r, 0x101, false, (c1 + 1) & 15, &r.bytes(10), false));
+            o.d(&format!("pesf {}", join(&pkts)));
+        } } } }
+    }
+    // long random sequences with arbitrary bytes
+    let n = if thorough { 40_000 } else { 2_000 };
+    for _ in 0..n {
+        let mut ccp = None;
+        let mut pkts = vec![];
+        for _ in 0..(2 + r.below(14)) {
+            let sym = if r.chance(3, 4) { [2usize, 3, 2, 2, 0][r.below(5) as usize] + if r.chance(1, 5) { 12 * (1 + r.below(3) as usize) } else { 0 } } else { r.below(48) as usize };
+            let mut p = sym_packet(r, sym, &mut ccp);
+            if r.chance(1, 20) { let i = 4 + r.below(184) as usize; p[i] = r.byte(); }
+            pkts.push(p);
+        }
+        o.d(&format!("pesf {}", join(&pkts)));
+    }
+    o.meta("exhaustive", &format!("all symbol sequences of length <= {} over the 48-symbol alphabet from 4 prefixes; all 16x16x2x2 counter cases from each", depth));
+}
+
+// ================================================================ multiplex scenarios (demux op)
+
+pub const PES_TYPES: [u8; 6] = [0x02, 0x03, 0x0f, 0x1b, 0x06, 0x81];
+pub const NON_PES_TYPES: [u8; 3] = [0x05, 0x86, 0x00];
+
+#[derive(Clone)]
+pub struct Prog {
+    pub num: u16,
+    pub pmt_pid: u16,
+    pub version: u8,
+    pub pcr_pid: u16,
+    pub prog_desc: Vec<u8>,
+    pub streams: Vec<(u8, u16, Vec<u8>)>,
+}
+
+pub struct Mux<'r> {
+    pub r: &'r Rng,
+    pub cc: std::collections::HashMap<u16, u8>,
+    pub out: Vec<Vec<u8>>,
+}
+impl<'r> Mux<'r> {
+    pub fn new(r: &'r Rng) -> Mux<'r> { Mux { r, cc: Default::default(), out: vec![] } }
+    pub fn cc(&mut self, pid: u16) -> u8 { let r = self.r; *self.cc.entry(pid).or_insert_with(|| r.byte() & 15) }
+    /// queue a section on `pid` (packets appended in order)
+    pub fn section(&mut self, pid: u16, sec: &[u8], plan: &SecPlan) -> Vec<Vec<u8>> {
+        let mut c = self.cc(pid);
+        let p = packetize_section(self.r, pid, &mut c, sec, plan);
+        self.cc.insert(pid, c);
+        p
+    }
+    pub fn pes(&mut self, pid: u16, spec: &PesSpec, exact: bool) -> Vec<Vec<u8>> {
+        let (b, hl) = pes_bytes(self.r, spec);
+        let mut c = self.cc(pid);
+        let p = packetize_pes(self.r, pid, &mut c, &b, hl, exact);
+        self.cc.insert(pid, c);
+        p
+    }
+    pub fn raw(&mut self, pid: u16, pusi: bool, payload: &[u8]) -> Vec<u8> {
+        let c = self.cc(pid);
+        self.cc.insert(pid, (c + 1) & 15);
+        mk_pkt(self.r, pid, pusi, c, payload, false)
+    }
+    pub fn af_only(&mut self, pid: u16) -> Vec<u8> {
+        // counter does not advance for payload-less packets: repeat the last value used
+        let c = self.cc(pid);
+        mk_af_only(self.r, pid, c.wrapping_sub(1) & 15)
+    }
+}
+
+/// merge several packet queues preserving the order inside each queue
+pub fn interleave(r: &Rng, mut qs: Vec<Vec<Vec<u8>>>) -> Vec<Vec<u8>> {
+    let mut out = vec![];
+    for q in qs.iter_mut() { q.reverse(); }
+    loop {
+        let live: Vec<usize> = (0..qs.len()).filter(|&i| !qs[i].is_empty()).collect();
+        if live.is_empty() { break; }
+        let i = live[r.below(live.len() as u64) as usize];
+        // runs of 1..4 packets from the same queue
+        for _ in 0..(1 + r.below(4)) { if let Some(p) = qs[i].pop() { out.push(p); } }
+    }
+    out
+}
+
+pub fn distinct_pids(r: &Rng, n: usize, avoid: &[u16]) -> Vec<u16> {
+    let mut v: Vec<u16> = vec![];
+    while v.len() < n {
+        let p = 0x20 + r.below(0x1fd0) as u16;
+        if !v.contains(&p) && !avoid.contains(&p) { v.push(p); }
+    }
+    v
+}
+
+pub fn rand_progs(r: &Rng, nprog: usize, max_streams: usize, used: &mut Vec<u16>) -> Vec<Prog> {
+    let mut progs = vec![];
+    for i in 0..nprog {
+        let pmt_pid = distinct_pids(r, 1, used)[0]; used.push(pmt_pid);
+        let ns = 1 + r.below(max_streams as u64) as usize;
+        let pids = distinct_pids(r, ns, used); used.extend(&pids);
+        let streams: Vec<(u8, u16, Vec<u8>)> = pids.iter().map(|&p| {
+            let st = if r.chance(5, 6) { PES_TYPES[r.below(6) as usize] } else { NON_PES_TYPES[r.below(3) as usize] };
+            (st, p, if r.chance(1, 2) { rand_desc_loop(r, 2) } else { vec![] })
+        }).collect();
+        progs.push(Prog { num: (i as u16 + 1) * 3 + r.below(3) as u16, pmt_pid, version: r.byte() & 31, pcr_pid: streams[0].1,
+            prog_desc: if r.chance(1, 3) { rand_desc_loop(r, 2) } else { vec![] }, streams });
+    }
+    progs
+}
+
+pub fn pat_of(progs: &[Prog], nit: Option<u16>) -> Vec<(u16, u16)> {
+    let mut e: Vec<(u16, u16)> = vec![];
+    if let Some(n) = nit { e.push((0, n)); }
+    for p in progs { e.push((p.num, p.pmt_pid)); }
+    e
+}
+
+pub fn pmt_of(p: &Prog) -> Vec<u8> { pmt_section(p.num, p.version, p.pcr_pid, &p.prog_desc, &p.streams) }
+
+fn plan_for(r: &Rng, sec: &[u8]) -> SecPlan {
+    if r.chance(1, 2) { simple_plan(sec.len()) } else { rand_plan(r, sec.len(), 8) }
+}
+
+fn emit(o: &mut Out<'_>, decisive: bool, cfg: &str, pushes: &[Vec<u8>]) -> String {
+    let body = format!("demux {} {}", cfg, pushes.iter().map(|p| hex(p)).collect::<Vec<_>>().join(" "));
+    if decisive { o.d(&body) } else { o.h(&body) }
+}
+
+/// cut a packet list into pushes at random packet boundaries
+pub fn rand_pushes(r: &Rng, pkts: &[Vec<u8>]) -> Vec<Vec<u8>> {
+    let mut pushes = vec![];
+    let mut cur: Vec<u8> = vec![];
+    for p in pkts {
+        cur.extend_from_slice(p);
+        if r.chance(1, 5) { pushes.push(std::mem::take(&mut cur)); if r.chance(1, 10) { pushes.push(vec![]); } }
+    }
+    pushes.push(cur);
+    pushes
+}
+
+/// a complete well-formed multiplex: PAT, PMTs, PES on every ES PID, tables repeated
+fn wf_mux(r: &Rng, nprog: usize, max_streams: usize, pes_per_pid: usize, max_payload: usize, repeats: bool) -> Vec<Vec<u8>> {
+    let mut m = Mux::new(r);
+    let mut used = vec![0u16, 0x1fff];
+    let progs = rand_progs(r, nprog, max_streams, &mut used);
+    let nit = if r.chance(1, 3) { let n = distinct_pids(r, 1, &used)[0]; used.push(n); Some(n) } else { None };
+    let pat = pat_section(r.below(65536) as u16, r.byte() & 31, &pat_of(&progs, nit));
+    let mut head = vec![];
+    head.extend(m.section(0, &pat, &plan_for(r, &pat)));
+    for p in progs.iter() { let s = pmt_of(p); head.extend(m.section(p.pmt_pid, &s, &plan_for(r, &s))); }
+    let mut qs = vec![];
+    for p in progs.iter() {
+        for (st, pid, _) in p.streams.iter() {
+            let mut q = vec![];
+            for _ in 0..(1 + r.below(pes_per_pid as u64)) {
+                if PES_TYPES.contains(st) {
+                    q.extend(m.pes(*pid, &rand_pes(r, max_payload), r.chance(1, 4)));
+                    if r.chance(1, 5) { q.push(m.af_only(*pid)); }
+                } else {
+                    q.push(m.raw(*pid, r.chance(1, 2), &r.bytes(1 + r.below(184) as usize)));
+                }
+            }
+            qs.push(q);
+        }
+    }
+    if repeats {
+        let mut q = vec![];
+        for _ in 0..(1 + r.below(4)) { q.extend(m.section(0, &pat, &plan_for(r, &pat))); }
+        qs.push(q);
+        for p in progs.iter() {
+            let s = pmt_of(p);
+            let mut q = vec![];
+            for _ in 0..(1 + r.below(4)) { q.extend(m.section(p.pmt_pid, &s, &plan_for(r, &s))); }
+            qs.push(q);
+        }
+    }
+    if r.chance(1, 3) { qs.push((0..r.below(4)).map(|_| null_pkt(r)).collect()); }
+    let mut all = head;
+    all.extend(interleave(r, qs));
+    all
+}
+
+// ---------------------------------------------------------------- C02 / C10
+
+fn gen_c02(tier: &str, r: &Rng, o: &mut Out<'_>) {
+    let n = if tier == "thorough" { 60_000 } else { 1_500 };
+    for i in 0..n {
+        let pkts = wf_mux(r, 1 + r.below(3) as usize, 1 + r.below(4) as usize, 3, if i % 4 == 0 { 700 } else { 300 }, i % 2 == 0);
+        let pushes = if r.chance(1, 2) { vec![concat(&pkts)] } else { rand_pushes(r, &pkts) };
+        emit(o, true, "b0t0", &pushes);
+    }
+    // exhaustive small sizes: PES payload 0..=400 with exact fit / random fill
+    let top = if tier == "thorough" { 400 } else { 200 };
+    for size in 0..=top {
+        if tier != "thorough" && size > 10 && size % 7 != 0 && !(170..200).contains(&size) { continue; }
+        for &shape in [0usize, 1, 2].iter() {
+            let mut m = Mux::new(r);
+            let pat = pat_section(1, 0, &[(1, 0x100)]);
+            let pmt = pmt_section(1, 0, 0x101, &[], &[(0x1b, 0x101, vec![])]);
+            let mut pkts = m.section(0, &pat, &simple_plan(pat.len()));
+            pkts.extend(m.section(0x100, &pmt, &simple_plan(pmt.len())));
+            for _ in 0..2 {
+                let spec = PesSpec { sid: 0xe0, pts: if shape > 0 { Some(r.next() & 0x1_ffff_ffff) } else { None }, dts: if shape > 1 { Some(r.next() & 0x1_ffff_ffff) } else { None },
+                    flags_extra: 0, ext_bytes: 0, declared_len: None, payload: r.bytes(size) };
+                pkts.extend(m.pes(0x101, &spec, true));
+            }
+            emit(o, true, "b0t0", &[concat(&pkts)]);
+        }
+    }
+    o.meta("plans", "1-3 programs, 1-4 streams, PES payload 0..=700, every header shape, stuffing, AF-only packets, repeated tables");
+}
+
+fn gen_c10(tier: &str, r: &Rng, o: &mut Out<'_>) {
+    let n = if tier == "thorough" { 50_000 } else { 1_500 };
+    for i in 0..n {
+        // tables repeated many times while PES packets are in flight
+        let mut m = Mux::new(r);
+        let mut used = vec![0u16, 0x1fff];
+        let progs = rand_progs(r, 1 + r.below(2) as usize, 3, &mut used);
+        let pat = pat_section(7, r.byte() & 31, &pat_of(&progs, None));
+        let big = i % 3 == 0;
+        let progs: Vec<Prog> = progs.into_iter().map(|mut p| { if big { p.prog_desc = { let mut d = vec![]; for _ in 0..20 { d.extend(rand_desc(r)); } d }; } p }).collect();
+        let mut head = m.section(0, &pat, &plan_for(r, &pat));
+        for p in progs.iter() { let s = pmt_of(p); head.extend(m.section(p.pmt_pid, &s, &plan_for(r, &s))); }
+        let mut qs = vec![];
+        for p in progs.iter() { for (st, pid, _) in p.streams.iter() { if PES_TYPES.contains(st) {
+            let mut q = vec![]; for _ in 0..3 { q.extend(m.pes(*pid, &rand_pes(r, 500), false)); } qs.push(q);
+        } } }
+        let reps = 1 + r.below(if i % 10 == 0 { 50 } else { 6 });
+        let mut q = vec![]; for _ in 0..reps { q.extend(m.section(0, &pat, &plan_for(r, &pat))); } qs.push(q);
+        for p in progs.iter() { let s = pmt_of(p); let mut q = vec![]; for _ in 0..reps { q.extend(m.section(p.pmt_pid, &s, &plan_for(r, &s))); } qs.push(q); }
+        let mut all = head; all.extend(interleave(r, qs));
+        // version sequence v -> w -> v on one PMT at the end
+        if i % 5 == 0 {
+            let mut p2 = progs[0].clone(); p2.version = (p2.version + 1) & 31;
+            let s2 = pmt_of(&p2); all.extend(m.section(p2.pmt_pid, &s2, &plan_for(r, &s2)));
+            all.extend(m.section(p2.pmt_pid, &s2, &plan_for(r, &s2)));
+            let s1 = pmt_of(&progs[0]); all.extend(m.section(p2.pmt_pid, &s1, &plan_for(r, &s1)));
+        }
+        emit(o, true, "b0t0", &rand_pushes(r, &all));
+    }
+    o.meta("plans", "tables repeated 1..50x (single- and multi-packet) interleaved with PES packets; v->w->v");
+}
+
+// ---------------------------------------------------------------- C06 / C07 / C18: dispatcher
+
+fn rand_flag_packet(r: &Rng, pid: u16, cc: u8) -> Vec<u8> {
+    let mut p = mk_pkt(r, pid, r.chance(1, 3), cc, &r.bytes(1 + r.below(184) as usize), false);
+    match r.below(8) { 0 => p[1] |= 0x80, 1 => p[3] |= 0x40, 2 => p[3] |= 0x80, 3 => p[3] |= 0xc0, _ => {} }
+    p
+}
+
+fn dispatcher_stream(r: &Rng, npk: usize, bad_sync: bool) -> Vec<Vec<u8>> {
+    let pool: Vec<u16> = { let mut v = distinct_pids(r, 2 + r.below(5) as usize, &[]); if r.chance(1, 3) { v.push(0x1fff); } if r.chance(1, 4) { v.push(0); } if r.chance(1, 4) { v.push(1); } v };
+    let mut pkts = vec![];
+    let mut cc = std::collections::HashMap::new();
+    while pkts.len() < npk {
+        let pid = pool[r.below(pool.len() as u64) as usize];
+        for _ in 0..(1 + r.below(if r.chance(1, 5) { 30 } else { 4 })) {
+            let c = cc.entry(pid).or_insert(0u8);
+            let mut p = rand_flag_packet(r, pid, *c);
+            *c = (*c + 1) & 15;
+            if bad_sync && r.chance(1, 15) { p[0] = r.byte(); }
+            pkts.push(p);
+        }
+    }
+    pkts.truncate(npk);
+    pkts
+}
+
+fn rand_script(r: &Rng, npk: usize, pids: &[u16]) -> String {
+    let mut s = String::new();
+    let n = 1 + r.below(6);
+    let mut ks: Vec<usize> = (0..n).map(|_| r.below(npk as u64) as usize).collect();
+    ks.sort(); ks.dedup();
+    for k in ks {
+        let ops: Vec<String> = (0..(1 + r.below(4))).map(|_| {
+            let pid = if r.chance(3, 4) { pids[r.below(pids.len() as u64) as usize] } else { r.below(0x2000) as u16 };
+            if r.chance(1, 2) { format!("i{}", pid) } else { format!("r{}", pid) }
+        }).collect();
+        s.push_str(&format!(";{}:{}", k, ops.join(",")));
+    }
+    s
+}
+
+fn pids_of(pkts: &[Vec<u8>]) -> Vec<u16> {
+    let mut v: Vec<u16> = pkts.iter().map(|p| (((p[1] & 0x1f) as u16) << 8) | p[2] as u16).collect();
+    v.sort(); v.dedup(); v
+}
+
+fn gen_c06(tier: &str, r: &Rng, o: &mut Out<'_>) {
+    let n = if tier == "thorough" { 80_000 } else { 3_000 };
+    for i in 0..n {
+        let npk = 2 + r.below(40) as usize;
+        let pkts = dispatcher_stream(r, npk, i % 3 == 0);
+        let cfg = if i % 2 == 0 { "b0t0".to_string() } else { format!("b0t0{}", rand_script(r, npk, &pids_of(&pkts))) };
+        let pushes = if r.chance(1, 2) { vec![concat(&pkts)] } else { rand_pushes(r, &pkts) };
+        emit(o, true, &cfg, &pushes);
+    }
+    // every TEI x scrambling combination on announced and unannounced PIDs
+    for tei in 0..2u8 { for sc in 0..4u8 { for first in 0..2 {
+        let mut pkts = vec![];
+        if first == 1 { pkts.push(mk_pkt(r, 0x200, false, 0, &r.bytes(184), false)); }
+        let mut p = mk_pkt(r, 0x200, false, 1, &r.bytes(184), false);
+        p[1] |= tei << 7; p[3] |= sc << 6;
+        pkts.push(p);
+        pkts.push(mk_pkt(r, 0x200, false, 2, &r.bytes(184), false));
+        pkts.push(mk_pkt(r, 0x201, false, 0, &r.bytes(184), false));
+        emit(o, true, "b0t0", &[concat(&pkts)]);
+    } } }
+    o.meta("plans", "random PID mixes (run lengths 1..30, PIDs incl. 0, 1, 0x1fff), TEI x scrambling exhaustive, bad sync bytes, scripted changes inside runs");
+}
+
+fn gen_c18(tier: &str, r: &Rng, o: &mut Out<'_>) {
+    let n = if tier == "thorough" { 80_000 } else { 3_000 };
+    for _ in 0..n {
+        let npk = 2 + r.below(30) as usize;
+        let pkts = dispatcher_stream(r, npk, false);
+        let cfg = format!("b0t0{}", rand_script(r, npk, &pids_of(&pkts)));
+        let pushes = if r.chance(1, 2) { vec![concat(&pkts)] } else { rand_pushes(r, &pkts) };
+        emit(o, true, &cfg, &pushes);
+    }
+    // targeted: self-replace, self-remove, remove unregistered, last insert wins, change on last packet of a push
+    let a = 0x300u16; let b = 0x301u16;
+    let mk = |pids: &[u16]| -> Vec<Vec<u8>> { pids.iter().enumerate().map(|(i, &p)| mk_pkt(r, p, false, i as u8 & 15, &r.bytes(184), false)).collect() };
+    let cases: Vec<(&str, Vec<u16>)> = vec![
+        ("b0t0;0:i768", vec![a, a, a]), ("b0t0;0:r768", vec![a, a, a]), ("b0t0;1:r999", vec![a, a, b]),
+        ("b0t0;0:i769,i769,r769,i769", vec![a, b, b]), ("b0t0;0:i769,r769", vec![a, b, b]), ("b0t0;1:r768,i768", vec![a, a, a, a]),
+        ("b0t0;2:i769", vec![a, a, a]), ("b0t0;0:r769;1:i769", vec![b, a, b, b]), ("b0t0;0:r0", vec![a, 0, 0]),
+    ];
+    for (cfg, pids) in cases {
+        let pk = mk(&pids);
+        emit(o, true, cfg, &[concat(&pk)]);
+        let pushes: Vec<Vec<u8>> = pk.clone();
+        emit(o, true, cfg, &pushes);
+    }
+    o.meta("plans", "random scripts (any PIDs, repetitions, self-targeting, inside runs, last packet of a push) + 9 targeted scripts");
+}
+
+fn gen_c07(tier: &str, r: &Rng, o: &mut Out<'_>) {
+    let thorough = tier == "thorough";
+    // exhaustive chunkings of short streams
+    let nstreams = if thorough { 150 } else { 40 };
+    let maxn = if thorough { 11 } else { 9 };
+    for i in 0..nstreams {
+        let n = 2 + (i % (maxn - 1));
+        let pkts: Vec<Vec<u8>> = match i % 3 {
+            0 => { let mut p = wf_mux(r, 1, 2, 1, 200, true); p.truncate(n); p }
+            1 => dispatcher_stream(r, n, true),
+            _ => {
+                // a table completing on the last packet of a chunk, then ES packets
+                let mut m = Mux::new(r);
+                let pat = pat_section(1, 0, &[(1, 0x100)]);
+                let pmt = pmt_section(1, 0, 0x101, &[], &[(0x1b, 0x101, vec![]), (0x0f, 0x102, vec![])]);
+                let mut p = m.section(0, &pat, &simple_plan(pat.len()));
+                p.extend(m.section(0x100, &pmt, &simple_plan(pmt.len())));
+                p.extend(m.pes(0x101, &rand_pes(r, 300), false));
+                p.extend(m.pes(0x102, &rand_pes(r, 300), false));
+                p.truncate(n.max(4));
+                p
+            }
+        };
+        let n = pkts.len();
+        let cfg = if i % 4 == 1 { format!("b0t0{}", rand_script(r, n, &pids_of(&pkts))) } else { "b0t0".to_string() };
+        let masks: Vec<String> = (0..(1u32 << (n - 1))).map(|m| format!("{:x}", m)).collect();
+        o.d(&format!("cuts {} {} {}", cfg, hex(&concat(&pkts)), masks.join(",")));
+    }
+    // random chunkings of long hostile streams
+    let nl = if thorough { 20_000 } else { 600 };
+    for i in 0..nl {
+        let pkts = if i % 2 == 0 { wf_mux(r, 2, 3, 2, 400, true) } else { dispatcher_stream(r, 10 + r.below(50) as usize, true) };
+        let n = pkts.len();
+        let cfg = if i % 5 == 1 { format!("b0t0{}", rand_script(r, n, &pids_of(&pkts))) } else { "b0t0".to_string() };
+        let masks: Vec<String> = (0..6).map(|_| { let mut s = String::new(); for _ in 0..((n + 3) / 4) { s.push_str(&format!("{:x}", r.below(16))); } s }).collect();
+        o.d(&format!("cuts {} {} {}", cfg, hex(&concat(&pkts)), masks.join(",")));
+    }
+    o.meta("exhaustive", &format!("all 2^(n-1) chunkings of {} streams with n <= {}", nstreams, maxn));
+}
 pub fn generate(prop: &str, tier: &str, seed: u64, w: &mut dyn Write) {
-    let mut r = Rng::new(seed);
+    let r = Rng::new(seed);
     let mut o = Out { w, n: 0 };
     match prop {
-        "C12" => gen_c12(tier, &mut r, &mut o),
+        "C12" => gen_c12(tier, &r, &mut o),
+        "C13" => gen_c13(tier, &r, &mut o),
+        "C14" => gen_c14(tier, &r, &mut o),
+        "C15" => gen_c15(tier, &r, &mut o),
+        "C16" => gen_c16(tier, &r, &mut o),
+        "C17" => gen_c17(tier, &r, &mut o),
+        "C04" => gen_crc_cases(tier, &r, &mut o),
+        "C03" => gen_c03(tier, &r, &mut o),
+        "C02" => gen_c02(tier, &r, &mut o),
+        "C06" => gen_c06(tier, &r, &mut o),
+        "C07" => gen_c07(tier, &r, &mut o),
+        "C10" => gen_c10(tier, &r, &mut o),
+        "C18" => gen_c18(tier, &r, &mut o),
+        "C08" => gen_pesf(tier, &r, &mut o, 2),
+        "C09" => gen_pesf(tier, &r, &mut o, 1),
         _ => {
             o.h("crc -");
         }
